@@ -21,8 +21,16 @@ fn ints(parts: &[&str]) -> Vec<i32> {
     parts.iter().filter_map(|x| x.parse::<i32>().ok()).collect()
 }
 
+fn unhex(s: &str) -> String {
+    if s == "e" { return String::new(); }
+    let b: Vec<u8> = (0..s.len() / 2).filter_map(|i| u8::from_str_radix(&s[2 * i..2 * i + 2], 16).ok()).collect();
+    String::from_utf8_lossy(&b).to_string()
+}
+fn hex(s: &str) -> String { if s.is_empty() { return "e".to_string(); } s.bytes().map(|b| format!("{:02x}", b)).collect() }
+
 fn main() {
     let mut sh = h::Shell::new();
+    let mut cur_re: Option<regex::Regex> = None;
     let stdin = io::stdin();
     for line in stdin.lock().lines() {
         let line = line.unwrap();
@@ -69,6 +77,27 @@ fn main() {
                                        cl.commands.iter().map(|c| (c.tokens.clone(), c.redirects_to.clone(), c.redirect_from.clone())).collect::<Vec<_>>()),
                     Err(e) => println!("cl err {}", e),
                 }
+            }
+            // regex axiom validation against the REAL regex crate (arguments are hex-encoded utf-8)
+            "re_set" => { cur_re = regex::Regex::new(&unhex(parts.get(1).unwrap_or(&""))).ok(); println!("re_set {}", cur_re.is_some() as i32); }
+            "re_caps" => {
+                let t = unhex(parts.get(1).unwrap_or(&""));
+                match &cur_re {
+                    Some(re) => {
+                        let mut out = String::from("caps");
+                        for c in re.captures_iter(&t) {
+                            out.push_str(" |");
+                            for k in 0..c.len() { out.push(' '); match c.get(k) { Some(m) => out.push_str(&hex(m.as_str())), None => out.push('-') } }
+                        }
+                        println!("{}", out);
+                    }
+                    None => println!("caps !"),
+                }
+            }
+            "re_replace" => {
+                let to = unhex(parts.get(1).unwrap_or(&""));
+                let t = unhex(parts.get(2).unwrap_or(&""));
+                match &cur_re { Some(re) => println!("rep {}", hex(&re.replace(&t, to.as_str()))), None => println!("rep !") }
             }
             "calc" => {
                 let l = &line["calc ".len().min(line.len())..];
